@@ -1804,7 +1804,20 @@ class Compiler:
         try:
             stmts = template(textwrap.dedent(node.source.strip('\n')))
         except SyntaxError as exc:
-            raise ExpressionError(exc.msg, node.source)
+            error = ExpressionError(exc.msg, node.source)
+            if self._engine.strict:
+                raise error
+
+            # As for expressions, the error is raised when (and if) the
+            # code block is reached
+            p = pickle.dumps(error, -1)
+            return template(
+                "__exc = loads(p)",
+                loads=self._engine.loads_symbol, p=ast.Constant(p)
+            ) + [
+                TokenRef(error.token),
+                ast.Raise(exc=load("__exc")),
+            ]
         stmts = list(map(self._visitor, stmts))
         stmts.insert(0, TokenRef(node.source))
         return stmts
